@@ -203,7 +203,7 @@ def localOnly : Stmt → Bool
   | .seq a b => localOnly a && localOnly b
   | .ite _ t f => localOnly t && localOnly f
   | .assign (.var _) (.lit _) => true
-  | .reply => true
+  | .reply _ => true
   | _ => false
 
 theorem evalS_localOnly (pm : List Param) : ∀ (st : Stmt), localOnly st = true → ∀ s : Frame,
@@ -229,7 +229,7 @@ theorem evalS_localOnly (pm : List Param) : ∀ (st : Stmt), localOnly st = true
     cases l <;> cases x <;> simp only [localOnly, reduceCtorEq] at h
     rename_i k n
     exact ⟨s.set (.var k) (evalEx pm s [] (.lit n)), by simp only [evalS, exOk, if_true], rfl⟩
-  | reply => intro _ s; exact ⟨s, by simp only [evalS], rfl⟩
+  | reply r => intro _ s; exact ⟨s, by simp only [evalS], rfl⟩
   | _ => intro h; simp only [localOnly, reduceCtorEq] at h
 
 theorem decrqm_localOnly : localOnly TermBodies.stmt_decrqm = true := by decide
